@@ -21,7 +21,8 @@ RULE = ('Engine "serial-exhaustive": for each of a list of small DAGs (3-6 nodes
         'injector restricted to lab.py (the coordinator\'s interrupt handling) at a drawn k. Engine "fork-lines": the same injector '
         'in the parent of real fork runs (children untouched), k drawn from the dry-run range. Engine "signals": gated fork runs; '
         'at a schedule-chosen resting point (j tasks blocked inside run(), q queued) real SIGINT is delivered to the worker '
-        'processes and to the caller - once (then gates open) or twice (gates stay closed). Oracle, single interrupt: run_tasks '
+        'processes and to the caller - once (then gates open), twice (gates stay closed), or asynchronously from another thread while the '
+        'caller sits in the real runner\'s wait() and the blocked tasks are released at the same moment; fork and (few) spawn runs. Oracle, single interrupt: run_tasks '
         'raises exactly KeyboardInterrupt (never returns, never another exception); nothing is submitted/started after the '
         'interrupt; tasks that were executing finish and are cached; every entry reported cached afterwards loads its correct '
         'value and cached_tasks does not raise; completions processed before the interrupt are cached. Double: still '
@@ -77,7 +78,7 @@ def dry_count(spec: dict, only=None) -> int:
     return inj.count
 
 
-def judge(spec: dict, obs, fired: int, double: bool) -> tuple[list, bool]:
+def judge(spec: dict, obs, fired: int, double: bool, strict_order: bool = True) -> tuple[list, bool]:
     findings = []
     ex = oracles.expect_for(spec, obs)
     backend = spec['lab']['backend']
@@ -96,7 +97,7 @@ def judge(spec: dict, obs, fired: int, double: bool) -> tuple[list, bool]:
         if ev[0] == 'interrupt':
             seen_int = True
         elif ev[0] == 'submit':
-            if seen_int:
+            if seen_int and strict_order:
                 findings.append(core.Finding('C14:task-submitted-after-interrupt', ev[1]))
             else:
                 submitted_before.add(ev[1])
@@ -111,7 +112,7 @@ def judge(spec: dict, obs, fired: int, double: bool) -> tuple[list, bool]:
             running_at_int = set(running)
         elif r[0] == 'S':
             running.add(r[1])
-            if seen_int and (backend in ('serial', 'controlled') or r[1] not in submitted_before):
+            if seen_int and strict_order and (backend in ('serial', 'controlled') or r[1] not in submitted_before):
                 findings.append(core.Finding('C14:task-started-after-interrupt', r[1]))
         elif r[0] in ('E', 'X', 'K'):
             running.discard(r[1])
@@ -200,12 +201,53 @@ def check_signal(case: dict) -> core.CaseResult:
             spy.hold_gates = True     # gates stay closed for ever: run_tasks cannot have waited for the tasks
         signal.raise_signal(signal.SIGINT)
 
+    import contextlib
+    import threading
+    flag = {'in_run': False}
+
+    if case.get('async'):
+        # the signal is delivered by another thread a few ms later, while the caller is inside the real runner's wait()
+        # (its helper thread is listening on the result queue), and the blocked tasks are released at the same moment
+        def hook(spy, blocked, unfinished):      # noqa: F811
+            i = st_['rest']
+            st_['rest'] += 1
+            if i != target or st_.get('armed'):
+                return
+            st_['armed'] = True
+            st_['pids'] = [int(r[2]) for r in vu.read_trace(spy.ctl.obs_dir) if r[0] == 'S' and r[1] in blocked]
+            st_['blocked_at_signal'] = sorted(blocked)
+            st_['queued_at_signal'] = sorted(set(unfinished) - set(blocked))
+
+            def deliver():
+                time.sleep(case.get('delay_ms', 30) / 1000.0)
+                if flag['in_run']:
+                    st_['sent'] = 1
+                    spy.ctl.log('interrupt', 1, 'SIGINT-async')
+                    vu.trace('I 1 SIGINT-async')
+                    os.kill(os.getpid(), signal.SIGINT)
+            spy._release(list(blocked))
+            threading.Thread(target=deliver, daemon=True).start()
+
+    @contextlib.contextmanager
+    def around(ctl):
+        flag['in_run'] = True
+        try:
+            yield
+        finally:
+            flag['in_run'] = False
+            if case.get('async'):
+                try:
+                    time.sleep(0.15)      # absorb a signal that was already on its way when run_tasks ended
+                except KeyboardInterrupt:
+                    pass
+
     t0 = time.monotonic()
-    obs = dagrun.execute_case(spec, gated=True, rest_hook=hook, verify_cache=True)
+    obs = dagrun.execute_case(spec, gated=True, rest_hook=hook, verify_cache=True, around_run=around)
     elapsed = time.monotonic() - t0
     if st_['sent'] == 0:
         return core.CaseResult(labels=('signal-not-sent',), summary=obs.summary())
-    findings, nt = judge(spec, obs, st_['sent'], double=double and st_['sent'] > 1)
+    is_async = bool(case.get('async'))
+    findings, nt = judge(spec, obs, st_['sent'], double=double and st_['sent'] > 1, strict_order=not is_async)
     by_name = {n['name']: n for n in spec['nodes']}
     ex = oracles.expect_for(spec, obs)
     started_after = []
@@ -215,7 +257,7 @@ def check_signal(case: dict) -> core.CaseResult:
             seen = True
         elif r[0] == 'S' and seen:
             started_after.append(r[1])
-    if started_after:
+    if started_after and not is_async:
         findings.append(core.Finding('C14:task-started-after-interrupt-at-rest', f'{started_after} (queued at signal: {st_.get("queued_at_signal")})'))
     ended = {r[1] for r in obs.trace if r[0] == 'E'}
     if double and st_['sent'] > 1:
@@ -230,14 +272,14 @@ def check_signal(case: dict) -> core.CaseResult:
             nid = by_name[name]['id']
             if ex.status.get(nid) == 'ok' and name not in ended:
                 findings.append(core.Finding('C14:executing-task-did-not-finish-after-single-interrupt', name))
-        extra = [by_name_n for by_name_n in (spec['nodes'][i]['name'] for i, c in obs.cached_after.items() if c)
+        extra = [] if is_async else [by_name_n for by_name_n in (spec['nodes'][i]['name'] for i, c in obs.cached_after.items() if c)
                  if by_name_n not in st_['blocked_at_signal'] and by_name_n not in {e[1] for e in obs.events if e[0] == 'delivered'}
                  and by_name[by_name_n]['id'] not in obs.model_before]
         if extra:
             findings.append(core.Finding('C14:task-cached-although-it-never-ran-before-the-interrupt', str(extra)))
     seen_sig = set()
     findings = [f for f in findings if not (f.signature in seen_sig or seen_sig.add(f.signature))]
-    labels = [f'signal={"double" if double else "single"}', f'blocked_at_signal={len(st_["blocked_at_signal"])}', f'queued_at_signal={min(len(st_.get("queued_at_signal", [])), 3)}']
+    labels = [f'signal={"double" if double else ("async" if case.get("async") else "single")}', f'signal_backend={spec["lab"]["backend"]}', f'blocked_at_signal={len(st_["blocked_at_signal"])}', f'queued_at_signal={min(len(st_.get("queued_at_signal", [])), 3)}']
     s = obs.summary()
     s['signal'] = {k: v for k, v in st_.items() if k != 't_first'}
     return core.CaseResult(findings=findings, nontrivial=bool(st_['blocked_at_signal']), labels=tuple(labels), summary=s, stop_search=obs.timeout)
@@ -258,7 +300,7 @@ NSHARDS = 6
 
 def serial_points(tier: str) -> list[dict]:
     cases = []
-    specs_ = [with_lab(s, 'serial') for s in FIXED] + ([with_lab(FIXED[1], 'serial', bust=True)] if tier != 'quick' else [])
+    specs_ = [with_lab(s, 'serial') for s in FIXED] + [with_lab(FIXED[1], 'serial', bust=True)]
     for sp in specs_:
         n = dry_count(sp)
         for k in range(n):
@@ -324,10 +366,13 @@ def check_drawn(case: dict) -> core.CaseResult:
 
 
 @st.composite
-def signal_case(draw):
-    sp = draw(specs.dag_spec(min_nodes=3, max_nodes=8, backends=('fork',), types=['NN', 'N2', 'Z', 'N3'], wide=True, req_many=True, pre_cache=False,
-                             bust=False, contexts=False, max_workers=(1, 2, 3)))
-    return {'spec': sp, 'rest_index': draw(st.integers(0, 3)), 'double': draw(st.booleans())}
+def signal_case(draw, backend: str = 'fork'):
+    sp = draw(specs.dag_spec(min_nodes=3, max_nodes=5 if backend == 'spawn' else 8, backends=(backend,), types=['NN', 'N2', 'Z', 'N3'], wide=True,
+                             req_many=True, pre_cache=False, bust=False, contexts=False, max_workers=(1, 2, 3),
+                             continue_on_failure=(True, False)))
+    mode = draw(st.sampled_from(['single', 'double', 'async', 'async'] if backend == 'fork' else ['single', 'double']))
+    return {'spec': sp, 'rest_index': draw(st.integers(0, 3)), 'double': mode == 'double', 'async': mode == 'async',
+            'delay_ms': draw(st.sampled_from([5, 30, 120]))}
 
 
 def plan(tier: str) -> list[dict]:
@@ -337,7 +382,8 @@ def plan(tier: str) -> list[dict]:
     jobs += [{'engine': 'controlled', 'n': 200 if q else 8000, 'hashseed': i} for i in range(2)]
     jobs += [{'engine': 'fork-lines', 'n': 20 if q else 1600, 'hashseed': i} for i in range(1)]
     jobs += [{'engine': 'fork-sites', 'shard': i, 'hashseed': i} for i in range(6)]
-    jobs += [{'engine': 'signals', 'n': 14 if q else 500, 'hashseed': i} for i in range(1)]
+    jobs += [{'engine': 'signals', 'n': 14 if q else 500, 'hashseed': i} for i in range(2)]
+    jobs += [{'engine': 'signals-spawn', 'n': 2 if q else 60, 'hashseed': 5}]
     return jobs
 
 
@@ -368,6 +414,8 @@ def run_job(rec: core.Recorder, job: dict, seed: int) -> None:
     elif e == 'fork-lines':
         core.run_hypothesis(rec, e, st.one_of(drawn_point('fork', False, False), drawn_point('fork', False, False, gated=True)), check_drawn,
                             max_examples=job['n'], seed=seed, shrink=False)
+    elif e == 'signals-spawn':
+        core.run_hypothesis(rec, e, signal_case('spawn'), check_signal, max_examples=job['n'], seed=seed, shrink=False)
     else:
         core.run_hypothesis(rec, e, signal_case(), check_signal, max_examples=job['n'], seed=seed, shrink=False)
 
